@@ -249,11 +249,18 @@ def metamorphic(ck, H, summ, rng, n):
                    ('1099-div:0', 'box_14_1', 'box_16_1', ['taxpayer', 'both'] + (['spouse'] if joint else [])),
                    ('1099-g:0', 'box_10a_1', 'box_11_1', ['taxpayer', 'both'] + (['spouse'] if joint else [])),
                    ('1099-r:0', 'box_14_1_state', 'box_14_1', ['taxpayer'] + (['spouse'] if joint else []))]
-            for sec, statekey, amtkey, owners in NCW:
+            # ... and the SECOND state line of each 1099 (the first one then names another state)
+            SECOND = {'box_15_1': ('box_15_2', 'box_17_2'), 'box_14_1': ('box_14_2', 'box_16_2'), 'box_10a_1': ('box_10a_2', 'box_11_2'),
+                      'box_14_1_state': ('box_14_2_state', 'box_14_2')}
+            NCW += [(sec, SECOND[st][0], SECOND[st][1], owners, st) for (sec, st, am, owners) in NCW if st in SECOND]
+            for row in NCW:
+                sec, statekey, amtkey, owners = row[:4]
                 if (sec, amtkey) not in inputs:
                     continue
                 owner = owners[(k + len(sec)) % len(owners)]
                 v0 = dict(inputs)
+                if len(row) > 4:
+                    v0[(sec, row[4])] = 'VA'
                 v0[(sec, statekey)] = 'NC'
                 v0[(sec, 'belongs_to')] = owner
                 # N.C. lines are whole dollars: the withheld amounts are summed with their cents and the sum is rounded (half-even), so
